@@ -10,7 +10,7 @@ def step(rnd, pool, shadow, log):
     names = list(pool)
     a = rnd.choice(names)
     op = rnd.choice(['slice', 'slice', 'empty-slice', 'add', 'add', 'setitem', 'setitem-empty', 'pad-inplace', 'pad-copy', 'shift-inplace', 'shift-copy',
-                     'copy', 'hash-lookup', 'eq', 'iter-zip', 'iter-nested', 'value', 'bitwise', 'invert', 'chunks', 'new', 'observe-mutate-observe', 'observe-mutate-observe'])
+                     'copy', 'hash-lookup', 'eq', 'foreign-operand', 'iter-zip', 'iter-nested', 'value', 'bitwise', 'invert', 'chunks', 'new', 'observe-mutate-observe', 'observe-mutate-observe'])
     A, sa = pool[a], shadow[a]
     n = len(sa)
     new = 'v%d' % len(log)
@@ -60,6 +60,19 @@ def step(rnd, pool, shadow, log):
             b = rnd.choice(names)
             if (A == pool[b]) != (sa == shadow[b]):
                 return '%s == %s is %r, bits %r vs %r' % (a, b, A == pool[b], sa, shadow[b])
+        elif op == 'foreign-operand':
+            # objects of other types: never equal (a bytes object compares with the stored bytes, by documented design), never concatenated
+            for x in (sa, 7, None, [int(c) for c in sa], (sa,), 1.5):
+                if A == x or not (A != x):
+                    return '%r compares equal to %r' % (sa, x)
+            for x in (b'\x00', sa, 3, None):
+                try:
+                    A + x
+                    return 'concatenation with %r did not raise' % (x,)
+                except TypeError:
+                    pass
+            if n and n % 8 == 0 and not (A == int(sa, 2).to_bytes(n // 8, 'big')):
+                return 'a byte-aligned buffer does not compare equal to its own bytes'
         elif op == 'iter-zip':
             got = ''.join('%d%d' % (x, y) for x, y in zip(A, A))
             want = ''.join(c + c for c in sa)
